@@ -1,4 +1,883 @@
-use crate::report::ReplayFile;
-pub fn replay(_f: &ReplayFile) -> Result<Option<(String, String)>, String> { Err("todo".into()) }
-pub fn cmd_textfaults(_tier: &str, _seed: u64, _workers: usize, _out: &str, _rd: &str) -> i32 { 2 }
-pub fn cmd_wirefaults(_tier: &str, _seed: u64, _workers: usize, _out: &str, _rd: &str) -> i32 { 2 }
+//! C15 / C16 fault enumeration: the durable text of a position and the wire text of an action
+//! are corrupted in every single way of a fault catalogue (and in seeded combinations) and handed
+//! to the real parsers; nothing may unwind, and an action/square parse may succeed only for the
+//! printed form of its result.
+use crate::bridge::*;
+use crate::ctx::*;
+use crate::eng;
+use crate::report::*;
+use crate::rng::{mix as mix_seed, Fp, Rng};
+use crate::scenario::*;
+use arimaa_engine_step::{Action, Direction, GameState, Piece, Square};
+use serde_json::{json, Value};
+use std::panic::{catch_unwind, AssertUnwindSafe};
+use std::sync::atomic::{AtomicU64, Ordering};
+use std::sync::Mutex;
+use std::time::Instant;
+
+pub const ALPHABET: &[char] = &[
+    '0', '1', '2', '3', '4', '5', '6', '7', '8', '9', 'a', 'b', 'c', 'd', 'e', 'f', 'g', 'h', 'i', 'n', 's', 'w', 'p', 'r', 'm', 'R', 'C', 'D', 'H', 'M', 'E', 'A', 'B', 'G', 'I', 'N', 'P', '`', '@', '|', '+', '-', 'x', ' ', '\n', '\r',
+    '\t', '\0', 'é', 'š', 'ı', '٣', '１', '😀',
+];
+
+#[derive(Clone, Copy, PartialEq, Eq, Debug)]
+pub enum Kind {
+    GameState,
+    Action,
+    Square,
+    Piece,
+    Direction,
+}
+impl Kind {
+    pub fn name(self) -> &'static str {
+        match self {
+            Kind::GameState => "gamestate",
+            Kind::Action => "action",
+            Kind::Square => "square",
+            Kind::Piece => "piece",
+            Kind::Direction => "direction",
+        }
+    }
+    pub fn from_name(s: &str) -> Option<Kind> {
+        [Kind::GameState, Kind::Action, Kind::Square, Kind::Piece, Kind::Direction].into_iter().find(|k| k.name() == s)
+    }
+}
+
+/// outcome of handing `text` to parser `kind`: Ok(None) fine, Ok(Some((monitor, detail))) violation
+pub fn judge(kind: Kind, text: &str) -> Option<(&'static str, String)> {
+    crumb_take();
+    let was_quiet = set_quiet(true);
+    let r = catch_unwind(AssertUnwindSafe(|| -> Option<(&'static str, String)> {
+        match kind {
+            Kind::GameState => {
+                let _ = eng!("GameState::from_str", text.parse::<GameState>());
+                None
+            }
+            Kind::Action => match eng!("Action::from_str", text.parse::<Action>()) {
+                Ok(a) => {
+                    let printed = a.to_string();
+                    let upper_piece = matches!(a, Action::Place(_)) && text.chars().count() == 1 && text.to_ascii_lowercase() == printed;
+                    if printed == text || upper_piece {
+                        None
+                    } else {
+                        Some(("parse.accepts_only_printed_form", format!("Action::from_str({:?}) = Ok({}), whose printed form is {:?}", text, printed, printed)))
+                    }
+                }
+                Err(_) => None,
+            },
+            Kind::Square => match eng!("Square::from_str", text.parse::<Square>()) {
+                Ok(s) => {
+                    let printed = s.to_string();
+                    if printed == text {
+                        None
+                    } else {
+                        Some(("parse.accepts_only_printed_form", format!("Square::from_str({:?}) = Ok({}), whose printed form is {:?}", text, printed, printed)))
+                    }
+                }
+                Err(_) => None,
+            },
+            Kind::Piece => match eng!("Piece::from_str", text.parse::<Piece>()) {
+                Ok(p) => {
+                    let printed = p.to_string();
+                    if printed == text || (text.chars().count() == 1 && text.to_ascii_lowercase() == printed) {
+                        None
+                    } else {
+                        Some(("parse.accepts_only_printed_form", format!("Piece::from_str({:?}) = Ok({})", text, printed)))
+                    }
+                }
+                Err(_) => None,
+            },
+            Kind::Direction => match eng!("Direction::from_str", text.parse::<Direction>()) {
+                Ok(d) => {
+                    let printed = d.to_string();
+                    if printed == text {
+                        None
+                    } else {
+                        Some(("parse.accepts_only_printed_form", format!("Direction::from_str({:?}) = Ok({})", text, printed)))
+                    }
+                }
+                Err(_) => None,
+            },
+        }
+    }));
+    set_quiet(was_quiet);
+    match r {
+        Ok(v) => v,
+        Err(_) => {
+            let msg = last_panic_take().unwrap_or_default();
+            crumb_take();
+            Some(("parse.no_panic", format!("{}::from_str({:?}) panicked: {}", kind.name(), text, msg)))
+        }
+    }
+}
+
+pub fn replay(f: &ReplayFile) -> Result<Option<(String, String)>, String> {
+    let kind = Kind::from_name(f.v["kind"].as_str().unwrap_or("")).ok_or("replay file has no parser kind")?;
+    let text = f.v["text"].as_str().ok_or("replay file has no text")?;
+    Ok(judge(kind, text).map(|(m, d)| (m.to_string(), d)))
+}
+
+pub fn replay_codec() -> Result<Option<(String, String)>, String> {
+    let mut e = 0;
+    set_quiet(true);
+    let r = catch_unwind(AssertUnwindSafe(|| codec_table(&mut e)));
+    set_quiet(false);
+    Ok(match r {
+        Ok(v) => v.map(|(m, d)| (m.to_string(), d)),
+        Err(_) => Some(("codec.no_panic".to_string(), last_panic_take().unwrap_or_default())),
+    })
+}
+
+/// shrink the text while the same monitor still fires
+fn minimise_text(kind: Kind, text: &str, monitor: &str) -> String {
+    let mut best: Vec<char> = text.chars().collect();
+    let fails = |cs: &[char]| -> bool {
+        let s: String = cs.iter().collect();
+        matches!(judge(kind, &s), Some((m, _)) if m == monitor)
+    };
+    let mut budget = 3000;
+    let mut chunk = (best.len() / 2).max(1);
+    loop {
+        let mut i = 0;
+        let mut progress = false;
+        while i < best.len() && budget > 0 {
+            budget -= 1;
+            let end = (i + chunk).min(best.len());
+            let mut cand = best[..i].to_vec();
+            cand.extend_from_slice(&best[end..]);
+            if fails(&cand) {
+                best = cand;
+                progress = true;
+            } else {
+                i += chunk;
+            }
+        }
+        if budget <= 0 || best.is_empty() {
+            break;
+        }
+        if chunk == 1 {
+            if !progress {
+                break;
+            }
+        } else {
+            chunk /= 2;
+        }
+    }
+    best.into_iter().collect()
+}
+
+struct TextFail {
+    index: u64,
+    kind: Kind,
+    text: String,
+    monitor: &'static str,
+    detail: String,
+    fault: String,
+}
+
+fn report(prop: u32, seed: u64, f: &TextFail, replay_dir: &str) -> i32 {
+    let min = minimise_text(f.kind, &f.text, f.monitor);
+    let (monitor, detail) = match judge(f.kind, &min) {
+        Some((m, d)) => (m, d),
+        None => (f.monitor, f.detail.clone()),
+    };
+    let path = format!("{}/{}-{}-{}.json", replay_dir, prop_name(prop), seed, f.index);
+    let v = json!({
+        "mode": "text", "property": prop_name(prop), "monitor": monitor, "detail": detail, "kind": f.kind.name(), "text": min,
+        "original_text": f.text, "fault": f.fault, "seed": seed, "case_index": f.index, "repo_src_hash": repo_hash(),
+        "how_to_replay": "cd /verif && ./run replay <this file>",
+    });
+    if let Err(e) = (ReplayFile { v }).write(&path) {
+        eprintln!("HARNESS-ERROR: {}", e);
+        return 2;
+    }
+    match confirm_in_fresh_process(&path) {
+        Ok(true) => {}
+        _ => {
+            eprintln!("HARNESS-ERROR: replay of {} in a fresh process did not reproduce the violation", path);
+            return 2;
+        }
+    }
+    println!("violation: property {} monitor {} ({}): {}", prop_name(prop), monitor, f.fault, detail);
+    println!("VIOLATION property={} replay={}", prop_name(prop), path);
+    1
+}
+
+// ---------------------------------------------------------------------------------- C15
+
+/// base texts: printed diagrams of states taken from seeded games, with header variants
+fn base_texts(seed: u64, n: usize) -> Vec<String> {
+    let mut out = vec![];
+    let mut i = 0u64;
+    while out.len() < n {
+        let mut rng = Rng::new(mix_seed(seed ^ 0xC15, i));
+        i += 1;
+        let fam = FAMILIES[rng.below(FAMILIES.len())];
+        let mut gs = match generate(&mut rng, fam) {
+            Start::Initial => GameState::initial(),
+            Start::Diagram(t) => match t.parse::<GameState>() {
+                Ok(g) => g,
+                Err(_) => continue,
+            },
+        };
+        let k = rng.below(40);
+        for _ in 0..k {
+            let va = gs.valid_actions();
+            if va.is_empty() || gs.is_terminal().is_some() {
+                break;
+            }
+            gs = gs.take_action(&va[rng.below(va.len())]);
+        }
+        let mut text = gs.to_string();
+        // header variants: other side letters, long digit runs (the parser takes any \d+)
+        match rng.below(6) {
+            0 => text = text.replacen(['g', 's'], if rng.chance(0.5) { "w" } else { "b" }, 1),
+            1 => {
+                let digits = 1 + rng.below(19);
+                let num: String = (0..digits).map(|j| if j == 0 { (b'1' + rng.below(9) as u8) as char } else { (b'0' + rng.below(10) as u8) as char }).collect();
+                let nl = text.find('\n').unwrap_or(0);
+                let letter = text[..nl].chars().last().unwrap_or('g');
+                text = format!("{}{}{}", num, letter, &text[nl..]);
+            }
+            2 => text = format!("  {}", text),
+            _ => {}
+        }
+        out.push(text);
+    }
+    out
+}
+
+/// every single fault of the catalogue applied to `base`; `other` is a second snapshot for splices
+fn single_faults(base: &str, other: &str, f: &mut dyn FnMut(String, String)) {
+    let chars: Vec<char> = base.chars().collect();
+    let bytes = base.as_bytes();
+    // torn write: truncation at each byte (lossy at a char boundary inside a multi-byte char)
+    for cut in 0..bytes.len() {
+        f(String::from_utf8_lossy(&bytes[..cut]).into_owned(), format!("truncate@{}", cut));
+    }
+    // single bit flips
+    for i in 0..bytes.len() {
+        for bit in 0..8 {
+            let mut b = bytes.to_vec();
+            b[i] ^= 1 << bit;
+            f(String::from_utf8_lossy(&b).into_owned(), format!("bitflip@{}.{}", i, bit));
+        }
+    }
+    // substitution and insertion of every alphabet character at every position
+    for i in 0..chars.len() {
+        for c in ALPHABET {
+            if chars[i] != *c {
+                let mut v = chars.clone();
+                v[i] = *c;
+                f(v.into_iter().collect(), format!("substitute@{}={:?}", i, c));
+            }
+        }
+    }
+    for i in 0..=chars.len() {
+        for c in ALPHABET {
+            let mut v = chars.clone();
+            v.insert(i, *c);
+            f(v.into_iter().collect(), format!("insert@{}={:?}", i, c));
+        }
+    }
+    // an extra column holding a piece, at every position of every line
+    for i in 0..=chars.len() {
+        for tok in [" R", " r", "E "] {
+            let mut v: Vec<char> = chars[..i].to_vec();
+            v.extend(tok.chars());
+            v.extend_from_slice(&chars[i..]);
+            f(v.into_iter().collect(), format!("insert_token@{}={:?}", i, tok));
+        }
+    }
+    // lost / duplicated / reordered lines
+    let lines: Vec<&str> = base.split_inclusive('\n').collect();
+    for i in 0..lines.len() {
+        let mut v = lines.clone();
+        v.remove(i);
+        f(v.concat(), format!("lose_line@{}", i));
+        let mut v = lines.clone();
+        v.insert(i, lines[i]);
+        f(v.concat(), format!("duplicate_line@{}", i));
+        if i + 1 < lines.len() {
+            let mut v = lines.clone();
+            v.swap(i, i + 1);
+            f(v.concat(), format!("swap_lines@{}", i));
+        }
+        // the same line written many times (extra rows)
+        let mut v = lines.clone();
+        for _ in 0..9 {
+            v.insert(i, lines[i]);
+        }
+        f(v.concat(), format!("duplicate_line_x9@{}", i));
+    }
+    // duplicated spans in the header (grows the digit run)
+    let hl = lines.first().map_or(0, |l| l.chars().count());
+    for i in 0..hl {
+        for len in 1..=8usize {
+            if i + len <= hl {
+                let mut v: Vec<char> = chars[..i + len].to_vec();
+                v.extend_from_slice(&chars[i..i + len]);
+                v.extend_from_slice(&chars[i + len..]);
+                f(v.into_iter().collect(), format!("duplicate_span@{}+{}", i, len));
+                // and repeated until the number cannot fit any integer type
+                let mut v: Vec<char> = chars[..i].to_vec();
+                for _ in 0..6 {
+                    v.extend_from_slice(&chars[i..i + len]);
+                }
+                v.extend_from_slice(&chars[i + len..]);
+                f(v.into_iter().collect(), format!("repeat_span_x6@{}+{}", i, len));
+            }
+        }
+    }
+    // stale + new: first k lines of this snapshot, rest of another
+    let olines: Vec<&str> = other.split_inclusive('\n').collect();
+    for k in 0..=lines.len() {
+        let mut v: Vec<&str> = lines[..k].to_vec();
+        if k < olines.len() {
+            v.extend_from_slice(&olines[k..]);
+        }
+        f(v.concat(), format!("splice@{}", k));
+    }
+    // concatenation of two snapshots (an append that was meant to overwrite)
+    f(format!("{}{}", base, other), "append_second_snapshot".into());
+}
+
+fn mutate_once(rng: &mut Rng, chars: &mut Vec<char>) -> String {
+    if chars.is_empty() {
+        chars.push(*rng.pick(ALPHABET));
+        return "insert".into();
+    }
+    let i = rng.below(chars.len());
+    match rng.below(8) {
+        0 => {
+            chars.truncate(i);
+            "truncate".into()
+        }
+        1 => {
+            chars[i] = *rng.pick(ALPHABET);
+            "substitute".into()
+        }
+        2 => {
+            chars.insert(i, *rng.pick(ALPHABET));
+            "insert".into()
+        }
+        3 => {
+            chars.remove(i);
+            "delete".into()
+        }
+        4 => {
+            let len = 1 + rng.below(8);
+            let end = (i + len).min(chars.len());
+            let span: Vec<char> = chars[i..end].to_vec();
+            let times = 1 + rng.below(5);
+            for _ in 0..times {
+                for (k, c) in span.iter().enumerate() {
+                    chars.insert(i + k, *c);
+                }
+            }
+            "duplicate_span".into()
+        }
+        5 => {
+            // duplicate a whole line
+            let s: String = chars.iter().collect();
+            let lines: Vec<&str> = s.split_inclusive('\n').collect();
+            let li = rng.below(lines.len());
+            let mut v = lines.clone();
+            let times = 1 + rng.below(9);
+            for _ in 0..times {
+                v.insert(li, lines[li]);
+            }
+            *chars = v.concat().chars().collect();
+            "duplicate_line".into()
+        }
+        6 => {
+            if i + 1 < chars.len() {
+                chars.swap(i, i + 1);
+            }
+            "transpose".into()
+        }
+        _ => {
+            let mut b: Vec<u8> = chars.iter().collect::<String>().into_bytes();
+            if !b.is_empty() {
+                let j = rng.below(b.len());
+                b[j] ^= 1 << rng.below(8);
+            }
+            *chars = String::from_utf8_lossy(&b).chars().collect();
+            "bitflip".into()
+        }
+    }
+}
+
+pub fn cmd_textfaults(tier: &str, seed: u64, workers: usize, out: &str, replay_dir: &str) -> i32 {
+    let t0 = Instant::now();
+    let (n_base, n_multi) = if tier == "thorough" { (1500usize, 3_000_000u64) } else { (96usize, 150_000u64) };
+    let bases = base_texts(seed, n_base);
+    let next = AtomicU64::new(0);
+    struct Acc {
+        evals: u64,
+        accepted: u64,
+        distinct: FpSet,
+        kinds: std::collections::BTreeMap<String, u64>,
+        fails: Vec<TextFail>,
+        samples: Vec<Value>,
+    }
+    let acc = Mutex::new(Acc { evals: 0, accepted: 0, distinct: FpSet::default(), kinds: Default::default(), fails: vec![], samples: vec![] });
+    let total_jobs = n_base as u64 + n_multi.div_ceil(10_000);
+    std::thread::scope(|s| {
+        for _ in 0..workers.max(1) {
+            s.spawn(|| {
+                let mut evals = 0u64;
+                let mut accepted = 0u64;
+                let mut distinct = FpSet::default();
+                let mut kinds: std::collections::BTreeMap<String, u64> = Default::default();
+                let mut fails: Vec<TextFail> = vec![];
+                let mut samples = vec![];
+                loop {
+                    let job = next.fetch_add(1, Ordering::SeqCst);
+                    if job >= total_jobs {
+                        break;
+                    }
+                    let mut case = 0u64;
+                    let mut handle = |text: String, fault: String, base: &str, fails: &mut Vec<TextFail>| {
+                        case += 1;
+                        evals += 1;
+                        let kind_name = fault.split('@').next().unwrap_or("").to_string();
+                        *kinds.entry(format!("fault.{}", kind_name)).or_insert(0) += 1;
+                        let ok = eng!("GameState::from_str", std::panic::catch_unwind(AssertUnwindSafe(|| text.parse::<GameState>().is_ok())));
+                        // judge() repeats the parse under the silent hook only when needed
+                        let verdict = match ok {
+                            Ok(acc) => {
+                                if acc {
+                                    accepted += 1;
+                                }
+                                let header_changed = text.split('|').next() != base.split('|').next();
+                                let fields_changed = text.matches('|').count() != base.matches('|').count();
+                                if (acc || header_changed || fields_changed) && distinct.len() < FPSET_CAP {
+                                    let mut f = Fp::new();
+                                    f.str(&text);
+                                    distinct.insert(f.finish());
+                                }
+                                None
+                            }
+                            Err(_) => judge(Kind::GameState, &text),
+                        };
+                        if let Some((m, d)) = verdict {
+                            if fails.len() < 4 {
+                                fails.push(TextFail { index: job * 1_000_000 + case, kind: Kind::GameState, text, monitor: m, detail: d, fault });
+                            }
+                        }
+                    };
+                    set_quiet(true);
+                    if (job as usize) < n_base {
+                        let base = &bases[job as usize];
+                        let other = &bases[(job as usize + 1) % bases.len()];
+                        if job < 2 {
+                            samples.push(json!({"base_text": base, "fault_catalogue": "truncate@byte, bitflip@byte.bit, substitute@char=alphabet, insert@pos=alphabet, insert_token (extra column with a piece), lose/duplicate/swap/x9 line, duplicate/repeat span in header, splice with another snapshot, append second snapshot"}));
+                        }
+                        single_faults(base, other, &mut |t, fault| handle(t, fault, base, &mut fails));
+                    } else {
+                        let chunk = job - n_base as u64;
+                        for k in 0..10_000u64 {
+                            let idx = chunk * 10_000 + k;
+                            if idx >= n_multi {
+                                break;
+                            }
+                            let mut rng = Rng::new(mix_seed(seed ^ 0xFA17, idx));
+                            let base = &bases[rng.below(bases.len())];
+                            let mut chars: Vec<char> = base.chars().collect();
+                            let n = 2 + rng.below(5);
+                            let mut names = vec![];
+                            for _ in 0..n {
+                                names.push(mutate_once(&mut rng, &mut chars));
+                            }
+                            let text: String = chars.into_iter().collect();
+                            if idx < 2 {
+                                samples.push(json!({"multi_fault_sequence": names, "corrupted_text": text}));
+                            }
+                            handle(text, format!("multi@{}", names.join("+")), base, &mut fails);
+                        }
+                    }
+                    set_quiet(false);
+                }
+                let mut g = acc.lock().unwrap();
+                g.evals += evals;
+                g.accepted += accepted;
+                for x in distinct {
+                    g.distinct.insert(x);
+                }
+                for (k, v) in kinds {
+                    *g.kinds.entry(k).or_insert(0) += v;
+                }
+                g.fails.extend(fails);
+                g.samples.extend(samples);
+            });
+        }
+    });
+    let mut g = acc.into_inner().unwrap();
+    g.fails.sort_by_key(|f| f.index);
+    let mut exit = 0;
+    if let Some(f) = g.fails.first() {
+        exit = report(15, seed, f, replay_dir);
+        if exit == 2 {
+            return 2;
+        }
+    }
+    let wall = t0.elapsed().as_secs_f64();
+    let part = json!({
+        "part": "storage_faults",
+        "evaluations": g.evals,
+        "distinct_nontrivial": g.distinct.len(),
+        "rule": "base texts = printed diagrams of states from seeded games (all families, header variants: w/b letters, 1-19 digit move numbers, leading blanks); every single fault of the catalogue is enumerated for every base text, then seeded sequences of 2-6 faults; a case = one corrupted text handed to GameState::from_str under catch_unwind; non-trivial = distinct corrupted texts that the parser accepted or whose header or number of '|' fields differs from the base text",
+        "samples": g.samples,
+        "base_texts": n_base,
+        "single_faults_exhaustive_per_base_text": true,
+        "multi_fault_sequences": n_multi,
+        "accepted_by_parser": g.accepted,
+        "faults_injected_and_effective": g.kinds,
+        "alphabet": ALPHABET.iter().map(|c| c.to_string()).collect::<Vec<_>>(),
+        "wall_s": wall,
+        "violations": if exit == 1 { 1 } else { 0 },
+        "real_vs_stub": {"real": "<GameState as FromStr>::from_str", "stub": "durable store (in-memory string), fault injector"}
+    });
+    if std::fs::write(out, serde_json::to_string_pretty(&part).unwrap()).is_err() {
+        eprintln!("HARNESS-ERROR: cannot write {}", out);
+        return 2;
+    }
+    println!("C15 storage-fault part: {} corrupted texts ({} accepted), {} distinct non-trivial, {:.1}s", g.evals, g.accepted, g.distinct.len(), wall);
+    exit
+}
+
+// ---------------------------------------------------------------------------------- C16
+
+fn all_messages() -> Vec<String> {
+    let mut v = vec!["p".to_string()];
+    for p in Piece::ALL {
+        v.push(Action::Place(p).to_string());
+    }
+    for i in 0..64u8 {
+        for d in Direction::ALL {
+            v.push(Action::Move(Square::from_index(i), d).to_string());
+        }
+    }
+    v
+}
+
+/// the finite codec table, enumerated completely
+fn codec_table(evals: &mut u64) -> Option<(&'static str, String)> {
+    let bad = |m: &'static str, d: String| Some((m, d));
+    let mut n_actions = 0;
+    let mut acts = vec![Action::Pass];
+    for p in Piece::ALL {
+        acts.push(Action::Place(p));
+    }
+    for i in 0..64u8 {
+        for d in Direction::ALL {
+            acts.push(Action::Move(Square::from_index(i), d));
+        }
+    }
+    for a in &acts {
+        *evals += 1;
+        n_actions += 1;
+        let t = a.to_string();
+        match t.parse::<Action>() {
+            Ok(b) if b == *a => {}
+            other => return bad("codec.action_round_trip", format!("{:?} prints as {:?} which parses to {:?}", a, t, other.map(|x| x.to_string()).map_err(|e| e.to_string()))),
+        }
+    }
+    if n_actions != 263 {
+        return bad("codec.action_count", format!("{} actions", n_actions));
+    }
+    for i in 0..64u8 {
+        *evals += 1;
+        let s = Square::from_index(i);
+        let file = (b'a' + i % 8) as char;
+        let rank = 8 - i / 8;
+        let want = format!("{}{}", file, rank);
+        if s.to_string() != want {
+            return bad("codec.square_print", format!("index {} prints as {}, expected {}", i, s, want));
+        }
+        match want.parse::<Square>() {
+            Ok(b) if b == s => {}
+            other => return bad("codec.square_round_trip", format!("{} parses to {:?}", want, other.map(|x| x.to_string()).map_err(|e| e.to_string()))),
+        }
+        if s.index() != i as usize || s.as_bit_board() != 1u64 << i || Square::from_bit_board(1u64 << i) != s || Square::new(file, rank as usize) != s || s.column_char() != file || s.row() != rank {
+            return bad("codec.square_conversions", format!("conversions of {} are not mutually inverse / not index {}", want, i));
+        }
+    }
+    for p in Piece::ALL {
+        *evals += 1;
+        let t = p.to_string();
+        if !matches!(t.parse::<Piece>(), Ok(q) if q == p) || !matches!(t.to_uppercase().parse::<Piece>(), Ok(q) if q == p) {
+            return bad("codec.piece_round_trip", format!("piece {:?} prints as {:?}", p, t));
+        }
+    }
+    for d in Direction::ALL {
+        *evals += 1;
+        let t = d.to_string();
+        if !matches!(t.parse::<Direction>(), Ok(q) if q == d) {
+            return bad("codec.direction_round_trip", format!("direction {:?} prints as {:?}", d, t));
+        }
+    }
+    None
+}
+
+fn nth_string(mut idx: u64, len: usize) -> String {
+    let n = ALPHABET.len() as u64;
+    let mut s = String::new();
+    for _ in 0..len {
+        s.push(ALPHABET[(idx % n) as usize]);
+        idx /= n;
+    }
+    s
+}
+
+pub fn cmd_wirefaults(tier: &str, seed: u64, workers: usize, out: &str, replay_dir: &str) -> i32 {
+    let t0 = Instant::now();
+    let thorough = tier == "thorough";
+    let mut table_evals = 0u64;
+    crumb_take();
+    set_quiet(true);
+    let table = catch_unwind(AssertUnwindSafe(|| codec_table(&mut table_evals)));
+    set_quiet(false);
+    let table_fail = match table {
+        Ok(v) => v,
+        Err(_) => Some(("codec.no_panic", format!("codec table panicked: {}", last_panic_take().unwrap_or_default()))),
+    };
+    let msgs = all_messages();
+    let n = ALPHABET.len() as u64;
+    // job list: (kind of job, parameter)
+    //  A: all strings of length L (chunked)   B: <=2 faults on each message   C: concatenations   D: seeded longer strings
+    let max_len = if thorough { 4 } else { 3 };
+    let mut jobs: Vec<(u8, u64, u64)> = vec![];
+    for len in 0..=max_len {
+        let total = n.pow(len as u32);
+        let mut start = 0;
+        while start < total {
+            jobs.push((b'A', len as u64, start));
+            start += 200_000;
+        }
+    }
+    for mi in 0..msgs.len() as u64 {
+        jobs.push((b'B', mi, 0));
+    }
+    for mi in 0..msgs.len() as u64 {
+        jobs.push((b'C', mi, 0));
+    }
+    let n_seeded: u64 = if thorough { 40_000_000 } else { 2_000_000 };
+    let mut st = 0;
+    while st < n_seeded {
+        jobs.push((b'D', st, 0));
+        st += 100_000;
+    }
+    let next = AtomicU64::new(0);
+    struct Acc {
+        evals: u64,
+        accepted: u64,
+        distinct: FpSet,
+        fails: Vec<TextFail>,
+        kinds: std::collections::BTreeMap<String, u64>,
+    }
+    let acc = Mutex::new(Acc { evals: 0, accepted: 0, distinct: FpSet::default(), fails: vec![], kinds: Default::default() });
+    std::thread::scope(|s| {
+        for _ in 0..workers.max(1) {
+            s.spawn(|| {
+                let mut evals = 0u64;
+                let mut accepted = 0u64;
+                let mut distinct = FpSet::default();
+                let mut fails: Vec<TextFail> = vec![];
+                let mut kinds: std::collections::BTreeMap<String, u64> = Default::default();
+                set_quiet(true);
+                loop {
+                    let j = next.fetch_add(1, Ordering::SeqCst);
+                    if j as usize >= jobs.len() {
+                        break;
+                    }
+                    let (jk, a, b) = jobs[j as usize];
+                    let mut case = 0u64;
+                    let mut check = |text: &str, fault: &str, fails: &mut Vec<TextFail>| {
+                        for kind in [Kind::Action, Kind::Square, Kind::Piece, Kind::Direction] {
+                            case += 1;
+                            evals += 1;
+                            // fast path: parse directly; only a panic or an acceptance needs judging
+                            let r = catch_unwind(AssertUnwindSafe(|| match kind {
+                                Kind::Action => text.parse::<Action>().is_ok(),
+                                Kind::Square => text.parse::<Square>().is_ok(),
+                                Kind::Piece => text.parse::<Piece>().is_ok(),
+                                _ => text.parse::<Direction>().is_ok(),
+                            }));
+                            let verdict = match r {
+                                Ok(false) => None,
+                                Ok(true) => {
+                                    accepted += 1;
+                                    judge(kind, text)
+                                }
+                                Err(_) => judge(kind, text),
+                            };
+                            if !matches!(r, Ok(false)) || text.chars().any(|c| !c.is_ascii()) {
+                                if distinct.len() < FPSET_CAP {
+                                    let mut f = Fp::new();
+                                    f.u8(kind as u8);
+                                    f.str(text);
+                                    distinct.insert(f.finish());
+                                }
+                            }
+                            if let Some((m, d)) = verdict {
+                                if fails.len() < 4 {
+                                    fails.push(TextFail { index: j * 10_000_000 + case, kind, text: text.to_string(), monitor: m, detail: d, fault: fault.to_string() });
+                                }
+                            }
+                        }
+                    };
+                    match jk {
+                        b'A' => {
+                            let total = n.pow(a as u32);
+                            let end = (b + 200_000).min(total);
+                            *kinds.entry(format!("fault.all_strings_len{}", a)).or_insert(0) += end - b;
+                            for idx in b..end {
+                                let s = nth_string(idx, a as usize);
+                                check(&s, "all_strings", &mut fails);
+                            }
+                        }
+                        b'B' => {
+                            // every single fault and every pair of faults on one well-formed message
+                            let base: Vec<char> = msgs[a as usize].chars().collect();
+                            let mut level1: Vec<Vec<char>> = vec![];
+                            let mutate = |v: &Vec<char>, out: &mut Vec<Vec<char>>| {
+                                for i in 0..=v.len() {
+                                    for c in ALPHABET {
+                                        let mut w = v.clone();
+                                        w.insert(i, *c);
+                                        out.push(w);
+                                    }
+                                }
+                                for i in 0..v.len() {
+                                    for c in ALPHABET {
+                                        if v[i] != *c {
+                                            let mut w = v.clone();
+                                            w[i] = *c;
+                                            out.push(w);
+                                        }
+                                    }
+                                    let mut w = v.clone();
+                                    w.remove(i);
+                                    out.push(w);
+                                    let mut w = v.clone();
+                                    w.insert(i, v[i]);
+                                    out.push(w);
+                                    if i + 1 < v.len() {
+                                        let mut w = v.clone();
+                                        w.swap(i, i + 1);
+                                        out.push(w);
+                                    }
+                                    let mut w = v.clone();
+                                    w[i] = if v[i].is_uppercase() { v[i].to_ascii_lowercase() } else { v[i].to_ascii_uppercase() };
+                                    out.push(w);
+                                    out.push(v[..i].to_vec());
+                                }
+                            };
+                            mutate(&base, &mut level1);
+                            *kinds.entry("fault.single_on_message".into()).or_insert(0) += level1.len() as u64;
+                            let mut level2: Vec<Vec<char>> = vec![];
+                            for v in &level1 {
+                                let s: String = v.iter().collect();
+                                check(&s, "single_fault_on_message", &mut fails);
+                                // pairs: a second fault on top (only for the first 64 messages in quick, all in thorough)
+                                if thorough || a % 4 == seed % 4 {
+                                    level2.clear();
+                                    mutate(v, &mut level2);
+                                    *kinds.entry("fault.pair_on_message".into()).or_insert(0) += level2.len() as u64;
+                                    for w in &level2 {
+                                        let s2: String = w.iter().collect();
+                                        check(&s2, "two_faults_on_message", &mut fails);
+                                    }
+                                }
+                            }
+                        }
+                        b'C' => {
+                            *kinds.entry("fault.concatenated_messages".into()).or_insert(0) += msgs.len() as u64;
+                            for m2 in &msgs {
+                                let s = format!("{}{}", msgs[a as usize], m2);
+                                check(&s, "two_messages_concatenated", &mut fails);
+                            }
+                        }
+                        _ => {
+                            for idx in a..(a + 100_000).min(n_seeded) {
+                                let mut rng = Rng::new(mix_seed(seed ^ 0x316, idx));
+                                let len = 4 + rng.below(9);
+                                let mut s = String::new();
+                                // near-valid bias: start from a message half of the time
+                                if rng.chance(0.5) {
+                                    s.push_str(&msgs[rng.below(msgs.len())]);
+                                }
+                                while s.chars().count() < len {
+                                    s.push(*rng.pick(ALPHABET));
+                                }
+                                check(&s, "seeded_long_string", &mut fails);
+                            }
+                            *kinds.entry("fault.seeded_long_strings".into()).or_insert(0) += (a + 100_000).min(n_seeded) - a;
+                        }
+                    }
+                }
+                set_quiet(false);
+                let mut g = acc.lock().unwrap();
+                g.evals += evals;
+                g.accepted += accepted;
+                for x in distinct {
+                    g.distinct.insert(x);
+                }
+                g.fails.extend(fails);
+                for (k, v) in kinds {
+                    *g.kinds.entry(k).or_insert(0) += v;
+                }
+            });
+        }
+    });
+    let mut g = acc.into_inner().unwrap();
+    g.fails.sort_by_key(|f| f.index);
+    let mut exit = 0;
+    if let Some((m, d)) = table_fail {
+        // the codec table has no text to minimise: report it as a text case of the printed value
+        let path = format!("{}/C16-{}-codec.json", replay_dir, seed);
+        let v = json!({"mode": "codec", "property": "C16", "monitor": m, "detail": d, "seed": seed, "repo_src_hash": repo_hash(), "how_to_replay": "cd /verif && ./run replay <this file>"});
+        if (ReplayFile { v }).write(&path).is_err() {
+            return 2;
+        }
+        println!("violation: property C16 monitor {}: {}", m, d);
+        println!("VIOLATION property=C16 replay={}", path);
+        exit = 1;
+    } else if let Some(f) = g.fails.first() {
+        exit = report(16, seed, f, replay_dir);
+        if exit == 2 {
+            return 2;
+        }
+    }
+    let wall = t0.elapsed().as_secs_f64();
+    let part = json!({
+        "part": "wire_faults_and_codec_table",
+        "evaluations": g.evals + table_evals,
+        "distinct_nontrivial": g.distinct.len(),
+        "rule": "codec table (263 actions, 64 squares, 6 pieces, 4 directions: a finite table enumerated completely, not a simulation); every string of length <= 3 (quick) / <= 4 (thorough) over the alphabet; every single fault on every well-formed message and pairs of faults (a quarter of the messages in quick, all in thorough); every concatenation of two messages; seeded longer strings; each handed to the Action, Square, Piece and Direction parsers under catch_unwind; non-trivial = distinct (parser, string) cases that were accepted, panicked, or contain a non-ASCII character",
+        "samples": [
+            {"string": "a1n", "parsers": "Action, Square, Piece, Direction"},
+            {"string": "aén", "note": "multi-byte character inside a three-character message"},
+            {"string": "š1", "note": "U+0161: its low byte equals 'a'"},
+            {"string": "A1n", "note": "character below 'a'"}
+        ],
+        "codec_table_cases": table_evals,
+        "exhaustive": false,
+        "all_strings_up_to_length": max_len,
+        "accepted_by_a_parser": g.accepted,
+        "faults_injected_and_effective": g.kinds,
+        "alphabet": ALPHABET.iter().map(|c| c.to_string()).collect::<Vec<_>>(),
+        "wall_s": wall,
+        "violations": if exit == 1 { 1 } else { 0 },
+        "real_vs_stub": {"real": "FromStr/Display of Action, Square, Piece, Direction; Square conversions", "stub": "wire (in-memory string), fault injector"}
+    });
+    if std::fs::write(out, serde_json::to_string_pretty(&part).unwrap()).is_err() {
+        eprintln!("HARNESS-ERROR: cannot write {}", out);
+        return 2;
+    }
+    println!("C16 wire-fault part: {} parser calls ({} accepted), {} distinct non-trivial, {:.1}s", g.evals, g.accepted, g.distinct.len(), wall);
+    let _ = decode_board;
+    exit
+}
